@@ -133,7 +133,17 @@ class Spec:
             if isinstance(val, ast.AST) and isinstance(val, ast.expr):
                 setattr(new, f, self._fold(val))
             elif isinstance(val, list):
-                setattr(new, f, [self._fold(x) if isinstance(x, ast.expr) else x for x in val])
+                lst = []
+                for x in val:
+                    if isinstance(x, ast.expr):
+                        lst.append(self._fold(x))
+                    elif isinstance(x, ast.keyword):
+                        k2 = copy.copy(x)
+                        k2.value = self._fold(x.value)
+                        lst.append(k2)
+                    else:
+                        lst.append(x)
+                setattr(new, f, lst)
         return new
 
     # -------------------------------------------------------------- execution
